@@ -126,6 +126,7 @@ func VerifC07_main() {
 		g := vSumAssert("in flight at close", e.G...)
 		vAssert(g == 0, "C07: the error channel is closed only after every delivered item was released")
 	})
+	vTermWatch(d.output, d.err)
 	d.main()
 	vReach("returned")
 	vAssert(vAnd(vIsClosed(d.output), vIsClosed(d.err), vIsClosed(d.feedback)), "C07/C19: main closes output, err and feedback")
